@@ -969,6 +969,10 @@ class Shapes:
         self.fRR = S("c13_fRR", F(REAL, [REAL]))
         self.fBB = S("c13_fBB", F(BOOL, [BOOL]))
         self.fRB = S("c13_fRB", F(BOOL, [REAL]))
+        self.gBI = S("c13_gBI", F(INT, [BOOL]))
+        self.gBU = S("c13_gBU", F(self.U, [BOOL, INT]))
+        self.aBI = S("c13_aBI", ArrayType(BOOL, INT))
+        self.aIB = S("c13_aIB", ArrayType(INT, BOOL))
         self.fAI = S("c13_fAI", F(ArrayType(INT, REAL), [INT]))
 
     def all(self):
@@ -1003,6 +1007,35 @@ class Shapes:
         A(("bound-used", m.ForAll([qu], self.app(self.hUB, qu))))
         A(("bound-used", m.ForAll([qa], m.Equals(m.Select(qa, x), r))))
         A(("quant-bool", m.ForAll([m.Symbol("c13_qb", BOOL)], m.Or(m.Symbol("c13_qb", BOOL), b))))
+        # quantifiers nested inside TERMS: reachable only through an operand of a relation / an argument of a
+        # function / an array index or element
+        qy = m.Symbol("c13_qy", INT)
+        qbb = m.Symbol("c13_qb", BOOL)
+        qbodies = [m.Exists([qy], m.GT(qy, x)), m.ForAll([qbb], m.Or(qbb, b)), m.ForAll([qv], m.BVULE(qv, v)),
+                   m.Not(m.Exists([qy, qbb], m.And(qbb, m.LE(qy, y))))]
+        for q in qbodies:
+            iti, itr = m.Ite(q, I(1), I(0)), m.Ite(q, R(1), r)
+            itv, its, itu = m.Ite(q, v, w), m.Ite(q, st, su), m.Ite(q, u, u2)
+            for rel in (m.Equals, m.LE, m.LT, m.GE, m.GT):
+                A(("quant-in-term", rel(iti, z)))
+                A(("quant-in-term", rel(s, itr)))
+            for rel in (m.Equals, m.BVULT, m.BVULE, m.BVSLT, m.BVSLE):
+                A(("quant-in-term", rel(itv, w)))
+            for rel in (m.Equals, m.StrContains, m.StrPrefixOf, m.StrSuffixOf):
+                A(("quant-in-term", rel(its, su)))
+            A(("quant-in-term", m.Equals(itu, u)))
+            A(("quant-in-term", m.Equals(m.Plus(iti, x), m.Times(I(2), z))))
+            A(("quant-in-term", m.Equals(self.app(self.gBI, q), z)))
+            A(("quant-in-term", m.LE(self.app(self.gBI, q), z)))
+            A(("quant-in-term", m.Equals(self.app(self.gBU, q, x), u)))
+            A(("quant-in-term", self.app(self.fBB, q)))
+            A(("quant-in-term", m.LE(m.Select(self.aBI, q), z)))
+            A(("quant-in-term", m.Equals(m.Select(m.Array(BOOL, I(0)), q), z)))
+            A(("quant-in-term", m.Equals(m.Store(self.aIB, x, q), self.aIB)))
+            A(("quant-in-term", m.Equals(m.Store(self.aBI, q, y), self.aBI)))
+            A(("quant-in-term", m.Equals(m.Array(INT, m.Bool(True), {I(3): q}), self.aIB)))
+            A(("quant-in-term", m.Equals(m.StrLength(its), m.BVToNatural(itv))))
+            A(("quant-in-term", m.And(b, m.Not(m.LT(iti, z)))))
         # division
         A(("div-by-var", m.Equals(m.Div(R(3), r), R(1))))
         A(("div-by-var", m.Equals(m.Div(r, s), R(1))))
@@ -1111,6 +1144,17 @@ def detect_check(ctx, env, tag, f, stats):
             ctx.report_s({"oracle": kind, "missing": "quantifiers", "via": "quantifier"},
                          "%s of `%s` is %s: quantifier-free" % (kind, f.serialize()[:160], label), rp)
         return miss
+    # 0. quantifier-freeness
+    try:
+        isqf = env.qfo.is_qf(f)
+        if bool(isqf) == bool(quant):
+            ctx.report_s({"oracle": "is_qf", "missing": "quantifiers" if quant else "none", "via": "quantifier",
+                          "context": context},
+                         "is_qf(`%s`) = %s but the formula %s a quantifier" % (
+                             f.serialize()[:160], isqf, "contains" if quant else "does not contain"), rp)
+    except Exception as e:
+        ctx.report_s({"oracle": "is_qf", "missing": "exception", "via": type(e).__name__},
+                     "is_qf(`%s`) raises %s" % (f.serialize()[:160], type(e).__name__), rp)
     # 1. the theory
     try:
         th = env.theoryo.get_theory(f)
@@ -1204,6 +1248,18 @@ def detection(ctx, lean_caps):
         u = unis[i % len(unis)]
         fg = gen.FormulaGen(r, u, max_depth=r.choice([2, 3, 4]), quant_prob=0.1)
         f = fg.gen(BOOL)
+        if r.random() < 0.12:
+            # push the (possibly quantified) formula below a relation, reachable only through a term
+            g = f if r.random() < 0.5 else m.Exists([sh.y], m.Or(f, m.LT(sh.y, sh.x)))
+            k = r.randrange(4)
+            if k == 0:
+                f = r.choice([m.Equals, m.LE, m.LT])(m.Ite(g, m.Int(1), sh.x), sh.z)
+            elif k == 1:
+                f = r.choice([m.Equals, m.BVULT, m.BVSLE])(m.Ite(g, sh.v, sh.w), sh.w)
+            elif k == 2:
+                f = m.Equals(sh.app(sh.gBI, g), sh.z)
+            else:
+                f = m.LE(m.Select(sh.aBI, g), sh.z)
         res = detect_check(ctx, env, "random", f, stats)
         if res and i % 3 == 0:
             kcases.append((f, res))
